@@ -14,6 +14,11 @@
 //         | 'Gb:' hash | 'Pb:' hash ':' content     the same with every pool buffer taken and the client gone
 //                                                   (handler called directly with a CloseNotifier recorder)
 //         | 'Ps:' hash ':' content                  PUT whose body is one byte shorter than its Content-Length
+//         | 'X:' volidx ':' hash ':' content ':' ('k'|'n')   not a request: the stored bytes change behind the
+//                                                   server's back — the file under the block path of hash on
+//                                                   that volume is overwritten in place with content; k = the
+//                                                   file's previous mtime is put back (silent decay, a restore
+//                                                   that preserves timestamps), n = it gets a new mtime
 // Unit-level cases for the byte loops (same driver, other first token):
 //   c01cmp <hash32> <expect hex|-> <chunks> <sep|last>    compareReaderWithBuf over a reader that returns the
 //        given chunks (',' separated hex, 'e' = a zero-length read, '-' = none), EOF on a separate read
@@ -23,6 +28,7 @@
 // One result line per case: per request
 //   G/H: <status>,<content-length header|->,<body length|->,<body md5|->
 //   P:   <status>,<X-Keep-Replicas-Stored|->,<fresh-router GET status>.<len>.<md5> | -
+//   X:   X
 // followed by '|' and the listing of every volume after the request (volumes joined by '/', files
 // sorted by name and joined by ',', each <name>=<size>.<md5>, '-' for an empty volume); requests are
 // joined by ';'.
@@ -636,6 +642,26 @@ func verifC01Case(line string, tmpParent string) (out string) {
 				}
 			}
 			res = fmt.Sprintf("%d,%s,%s", rec.Code, verifC01Hdr(rec.Header().Get("X-Keep-Replicas-Stored")), fg)
+		case p[0] == "X" && len(p) == 5 && len(p[2]) == 32 && (p[4] == "k" || p[4] == "n"):
+			idx, err := strconv.Atoi(p[1])
+			if err != nil || idx < 0 || idx >= len(vols) {
+				return "bad-op"
+			}
+			dir := filepath.Join(vols[idx].root, p[2][:3])
+			path := filepath.Join(dir, p[2])
+			old, statErr := os.Stat(path)
+			os.MkdirAll(dir, 0755)
+			if err := verifC01Plant(path, p[3]); err != nil {
+				return "bad-op"
+			}
+			ts := time.Now()
+			if p[4] == "k" && statErr == nil {
+				ts = old.ModTime()
+			}
+			if err := os.Chtimes(path, ts, ts); err != nil {
+				return "setup-failed chtimes"
+			}
+			res = "X"
 		default:
 			return "bad-op"
 		}
